@@ -318,7 +318,8 @@ def run_enum_for(pid, u, repo, tier, seed):
     return r
 
 def find_counterexample(pid, v, repo):
-    """for a failed Verus obligation: try the bounded Kani harnesses registered for the same function"""
+    """for a failed Verus obligation: search the bounded harness bodies registered for the same function for a concrete
+    failing input by exhaustive native execution (the input is then replayed against the repository by construction)"""
     hs = v.get("ce_harnesses") or {}
     fn_key = (v["payload"].get("impl") or "") + "::" + (v["payload"].get("fn") or "")
     cands = []
@@ -326,13 +327,10 @@ def find_counterexample(pid, v, repo):
         if pat in fn_key:
             cands += hl
     for h in cands:
-        cmd, rc, out, wall = run_group([h], repo, 900, jobs=1)
-        res = parse_terse(out)
-        for name, x in res.items():
-            if x["status"] == "failed":
-                ce = counterexample(name, repo)
-                if ce and ce.get("status") == "reproduced":
-                    return ce
+        x = enumerate_harness(h, repo, timeout=600)
+        if x["status"] == "failed":
+            return {"status": "reproduced", "harness": h, "values": x["values"], "native_failed_obligations": x["failed"], "replay_cmd": x["replay_cmd"],
+                    "source": "exhaustive native execution of the bounded harness body of the same function"}
     return None
 
 def replay_native(payload, repo):
